@@ -1,7 +1,8 @@
-(* C11 — the pessimistic rectangle comparison is sound for every cone; the pessimistic Pareto set
+(* C11 — the pessimistic rectangle comparison is sound for every cone and complete (exact arithmetic) for
+   two-objective cones with two facets; the pessimistic Pareto set
    is exactly the set of active designs that no other active design pessimistically dominates. *)
 From Coq Require Import QArith List Bool.
-From VOPy Require Import QVec Cone Rect Pessimistic PessProofs Spec Invariants AlgoRefine.
+From VOPy Require Import QVec Cone Rect Pessimistic PessProofs PessComplete Spec Invariants AlgoRefine.
 From VOPyGen Require Import Gen_algos.
 Import ListNotations.
 Open Scope Q_scope.
@@ -25,3 +26,13 @@ Theorem C11_pessimistic_set_same_in_epal_and_vogp_ad : forall E S P U,
   vogp_ad_compute_pessimistic_set E S P U = vogp_compute_pessimistic_set E S P U.
 Proof. intros. split; reflexivity. Qed.
 Print Assumptions C11_pessimistic_set_same_in_epal_and_vogp_ad.
+
+(* completeness for two objectives and an invertible two-facet cone matrix [[a;b];[c;d]], in exact
+   arithmetic (any opening angle, degenerate boxes included): whenever every point of r1 dominates
+   some point of r2, the vertex / edge-intersection search answers true *)
+Theorem C11_check_dominates_complete_2x2 : forall a b c d (r1 r2 : box),
+  ~ a * d - b * c == 0 ->
+  wf_box r1 -> wf_box r2 -> length r1 = 2%nat -> length r2 = 2%nat ->
+  pess_dominates (W2 a b c d) r1 r2 -> Pessimistic.check_dominates (W2 a b c d) r1 r2 = true.
+Proof. exact check_dominates_complete_2x2. Qed.
+Print Assumptions C11_check_dominates_complete_2x2.
